@@ -41,6 +41,8 @@ static Plan c04_gen(uint64_t seed, int tier, uint64_t index) {
     if (vsrv && cb == CB_NONE) { cb = CB_STRICT; }                 // a server without a callback does not request a client certificate at all
     Plan p = make_plan(kex, vsrv, defect, cb, ALERTS[r.below(7)], seed);
     p.cfg["skew_extra"] = (int64_t) r.below(400);                 // days added to the clock jump
+    p.cfg["name_var"] = (int64_t) r.below(13);                    // which wrong expected name (name_mismatch) ...
+    if (defect != D_NAME && !vsrv && r.chance(1, 3)) { p.cfg["right_name"] = 1 + (int64_t) r.below(2); }   // ... or the right one, as a control riding on other defects
     return p;
 }
 
@@ -64,6 +66,11 @@ static std::vector<Plan> c04_fixed(int tier) {
             }
         }
     }
+    // expected-name grid: every wrong name x version family x {no callback, strict callback}, plus the right name in both cases as control
+    for (int kex = 0; kex < NKEX; kex += 2) {
+        for (int nv = 0; nv < 13; nv++) { for (int cb = 0; cb < 2; cb++) { Plan p = make_plan(kex, 0, D_NAME, cb, 0, 45000 + v.size()); p.cfg["name_var"] = nv; v.push_back(p); } }
+        for (int rn = 1; rn <= 2; rn++) { for (int cb = 0; cb < 2; cb++) { Plan p = make_plan(kex, 0, D_NONE, cb, 0, 45000 + v.size()); p.cfg["right_name"] = rn; v.push_back(p); } }
+    }
     return v;
 }
 
@@ -81,7 +88,12 @@ static RunResult c04_exec(const Plan &p) {
         else { pc.cb_c = cb; pc.cb_allow_alert_c = (int) p.get("cb_alert"); }
         if (defect == D_UNKNOWN_CA && !vsrv) { pc.client_trusts_server = false; }
         if (defect == D_FORGED_CERT) { if (vsrv) { pc.forge_client_cert = true; } else { pc.forge_server_cert = true; } }
-        if (defect == D_NAME) { pc.expected_name = "wrong-host.example.org"; }
+        // every test certificate is issued for DNS:localhost / IP:127.0.0.1; expected names that are NOT that name, from unrelated to near misses
+        static const char *WRONG[] = { "wrong-host.example.org", "localhost.attacker.example", "LOCALHOST.corp.example.com", "localhostx", "xlocalhost", "localhos", "local", "a.localhost",
+                                       "localhost.localhost", "127.0.0.10", "27.0.0.1", "localhost-1", "l0calhost" };
+        std::string wrong_name = WRONG[(uint64_t) p.get("name_var") % (sizeof WRONG / sizeof WRONG[0])];
+        if (defect == D_NAME) { pc.expected_name = wrong_name; }
+        else if (!vsrv && p.get("right_name")) { pc.expected_name = p.get("right_name") == 2 ? "LOCALHOST" : "localhost"; }   // control: the right name (any case) must not fail a handshake
         TlsWorld w;
         if (!w.setup(pc)) { res.harness_error = true; res.detail = "setup rc=" + std::to_string(w.setup_rc); }
         else {
